@@ -113,7 +113,23 @@ theorem processor_history_independent (h₁ h₂ : List PrOp)
 example : (exec stepPr initPr [.addComp 1 1, .withInput 3, .setFilter 1, .probs, .setNoise 2]).config =
     (exec stepPr initPr [.addComp 1 1, .setNoise 2, .setFilter 1, .withInput 3]).config := by decide
 
-/-! ## Backends -/
+/-! ## Backends
+
+  FULL STATEMENT — NOT PROVED (kept visible; see manifest.d/C05.json):
+
+    theorem backend_query_eq_fresh (k : Kind) (ops : List Op) (q : Q) :
+        (stepB true (exec (stepB true) (initB k) ops) (.query q)).2 =
+          freshB true k (exec (stepB true) (initB k) ops).config q
+
+  Plan (half done): `InvB` (Lemmas/C05.lean: every iterator entry, SLOS layer / FS array / path, SLAP Fock
+  space, MPS compiled result carries the ghost of the current circuit, mask instance and cut-off) with
+  `invB_init`; missing are its preservation by `stepB true` for the six operations and four kinds, the closed
+  form `queryB = specB ∘ config` under `InvB`, and `config (exec … (canonB cfg)) = cfg` for well-formed `cfg`.
+  What is proved below are `decide`-checked witnesses only: the histories on which the code of the pinned tree
+  leaves the property, and that the repaired model agrees with a fresh backend on them.  For the backends the
+  assurance of the check is the correspondence run (exhaustive short + random histories against freshly
+  constructed objects and against this model), which is testing, not proof.
+-/
 
 /-- SLOS, code of the pinned tree: `set_circuit; set_input_state; set_mask; prob_distribution()` raises
 `KeyError` whereas a fresh backend returns a distribution -/
